@@ -90,6 +90,27 @@ class Path:
         return any(norm(e) == text and p == polarity for e, p in self.facts)
 
 
+def _flag_atoms(p, atoms):
+    """what a test of a boolean flag local says about the expression the flag
+    was computed from: `done = len(x) <= n` ... `if not done:` gives the
+    fact (len(x) <= n, False) - provided no name of that expression was
+    stored again in between"""
+    from .cfg import GuardWalker
+    out = []
+    for t, pol in atoms:
+        if not (isinstance(t, ast.Name) and t.id in p.env):
+            continue
+        val, pos = p.env[t.id]
+        if not isinstance(val, (ast.Compare, ast.BoolOp)) and not (
+                isinstance(val, ast.UnaryOp) and isinstance(val.op, ast.Not)):
+            continue
+        names = {x.id for x in ast.walk(val) if isinstance(x, ast.Name)}
+        if any(p.stores.get(nm, -1) > pos for nm in names):
+            continue
+        out += [a for a in GuardWalker._atoms(val, pol)]
+    return out
+
+
 def _helper_of(func, call):
     """the private same-class method / module function a call goes to"""
     from .model import dotted
@@ -221,7 +242,7 @@ def return_paths(func, max_paths=400, inline=True, _depth=0,
                                 st.body),
                                (b, GuardWalker._atoms(st.test, False),
                                 st.orelse)):
-                fs = list(fs)
+                fs = list(fs) + _flag_atoms(x, fs)
                 if x.contradicts(fs):
                     continue          # infeasible: opposite of a known fact
                 x.facts += fs
